@@ -311,26 +311,45 @@ def _bv(rng):
     return ["bv" + str(rng.randrange(cu.N_BAD_VAL))]
 
 
+def _retag(rng, g, pts, allow_naming):
+    """A grid tag with the same base and, where the sizes allow it, another style (repeated point / unsorted), other
+    dimension names (non-sorted insertion order, arbitrary names; dense >= 2-D only) and another coordinate scale."""
+    base = int(g) % 8
+    new = base
+    if rng.random() < 0.3:
+        cand = base + 8 * rng.choice([1, 2])
+        if cu.style_ok(pts, cand):
+            new = cand
+    if allow_naming and len(pts) >= 2 and rng.random() < 0.5:
+        new += 24 * rng.choice([1, 2])
+    return new
+
+
 def _randomise_styles(rng, toks):
-    """Give some of the grids a repeated point or an unsorted order (tag + 8 / + 16) where the sizes allow it."""
+    """Give some of the grids a repeated point or an unsorted order, dimension names that are not in sorted insertion order,
+    and coordinates far from the origin / narrow relative to their offset / in tiny units."""
     toks = list(toks)
     i = 0
     while i < len(toks):
         if toks[i] == "da" and i + 2 < len(toks):
             pts = cu.natvec(toks[i + 1])
-            if rng.random() < 0.3:
-                g = int(toks[i + 2]) % 8 + 8 * rng.choice([1, 2])
-                if cu.style_ok(pts, g):
-                    toks[i + 2] = str(g)
+            g = _retag(rng, toks[i + 2], pts, True)
+            if rng.random() < 0.2:
+                sc = rng.choice([1, 2, 3])
+                if sc != 3 or g % 8 >= 1:
+                    g += 72 * sc
+            toks[i + 2] = str(g)
             i += 3
         elif toks[i] == "ia" and i + 1 < len(toks):
             n = int(toks[i + 1])
+            sc = rng.choice([1, 2, 3]) if rng.random() < 0.2 else 0      # one coordinate scale for the whole dataset
             for k in range(n):
                 j = i + 2 + 3 * k
-                if j + 2 < len(toks) and rng.random() < 0.25:
-                    g = int(toks[j + 2]) % 8 + 8 * rng.choice([1, 2])
-                    if cu.style_ok(cu.natvec(toks[j + 1]), g):
-                        toks[j + 2] = str(g)
+                if j + 2 < len(toks):
+                    g = _retag(rng, toks[j + 2], cu.natvec(toks[j + 1]), False)
+                    if sc == 3 and g % 8 == 0:
+                        g += 1
+                    toks[j + 2] = str(g + 72 * sc)
             i += 2 + 3 * n
         else:
             i += 1
@@ -1143,6 +1162,41 @@ def _norm_run(case):
     return out
 
 
+def _dimname_cases():
+    """In every run: >= 2-D dense data whose dimension names are NOT inserted in sorted order / are arbitrary, with a different
+    number of points in every dimension: construction with the right and with transposed values, the three setters, selection,
+    concatenation."""
+    for naming in (1, 2):
+        for pts in ([3, 2], [2, 4, 3]):
+            g = 1 + 24 * naming
+            tr = list(reversed(pts))
+            base = ["mkD"] + a_dense(pts, g) + v_dense([0, 1], pts)
+            yield dict(kind="seq", start="dimnames", ops=[["mkD"] + a_dense(pts, g) + v_dense([0, 1], tr), base,
+                                                        ["setV"] + v_dense([5, 6, 7], pts), ["setV"] + v_dense([5, 6, 7], tr),
+                                                        ["setA"] + a_dense(pts, 2 + 24 * naming), ["setA"] + a_dense(tr, g),
+                                                        ["setS"] + a_dense(pts, g), ["setS"] + a_dense(tr, g), ["gi", "-1"],
+                                                        ["cat", "1", "U", "D"] + a_dense(pts, 2 + 24 * naming) + v_dense([9], pts),
+                                                        ["cat", "1", "U", "D"] + a_dense(pts, 2) + v_dense([9], pts)])
+            yield dict(kind="seq", start="dimnames", ops=[["mkM", "2", "D"] + a_dense(pts, g) + v_dense([0, 1], pts) + ["D"] + a_dense(tr, g) + v_dense([2, 3], tr),
+                                                        ["gs", "N", "N", "-1"], ["app", "D"] + a_dense(pts, g) + v_dense([4, 5], tr)])
+
+
+def _scale_cases():
+    """In every run: grids far from the origin, narrow relative to their offset, in tiny units (hourly Unix time stamps, years,
+    1e-9 units), dense and irregular: the standardised points keep the numbers of points and run from 0 to 1."""
+    for sc in (1, 2, 3):
+        t = 72 * sc
+        yield dict(kind="seq", start="scale", ops=[["mkD"] + a_dense([4], 1 + t) + v_dense([0, 1], [4]), ["setA"] + a_dense([4], 2 + t),
+                                                   ["gs", "1", "N", "N"], ["setS"] + a_dense([4], 3 + t)])
+        yield dict(kind="seq", start="scale", ops=[["mkD"] + a_dense([3, 2], 1 + t + 24) + v_dense([0, 1], [3, 2]), ["gi", "0"]])
+        obs_a = [(0, [3], 1 + t), (1, [2], 2 + t), (2, [4], 3 + t)]
+        obs_v = [(0, [3], 0), (1, [2], 1), (2, [4], 2)]
+        yield dict(kind="seq", start="scale", ops=[["mkI"] + a_irreg(obs_a) + v_irreg(obs_v), ["gs", "1", "N", "N"],
+                                                   ["setA"] + a_irreg([(1, [2], 4 + t), (2, [4], 5 + t)]), ["ga", "1,0"],
+                                                   ["cat", "1", "U", "I"] + a_irreg([(0, [2], 1 + t)]) + v_irreg([(0, [2], 7)])])
+        yield dict(kind="seq", start="scale", ops=[["mkI"] + a_irreg([(0, [2, 3], 1 + t), (1, [3, 2], 2 + t)]) + v_irreg([(0, [2, 3], 0), (1, [3, 2], 1)]), ["gi", "1"]])
+
+
 def _alias_cases():
     """In every run: an operation that returns data, then legal setter calls on the RESULT; the operand must stay as it was."""
     d, i = START["dense"], START["irreg"]
@@ -1453,6 +1507,8 @@ def gen_cases(rng: Rng, tier):
     cases += list(_bad_variant_cases())
     cases += list(_stand_label_cases())
     cases += list(_alias_cases())
+    cases += list(_dimname_cases())
+    cases += list(_scale_cases())
     cases += list(_api_cases())
     cases += list(_ctorargs_cases())
     cases += list(_xop_cases(rng, 120 if tier == "quick" else 1500))
